@@ -306,10 +306,10 @@ decreasing_by exact extract_rest_lt mask (envOf s) isServer guessed ts d h
 /-! ### derived attributes and the associated data -/
 
 /-- `token_len = decode_variable_length_int(token_len_bytes)` -/
-def Pkt.tokenLen (p : Pkt) : Option Nat := p.tokenLenBytes.bind decodeVarint
+def _root_.TLX.Quic.Pkt.tokenLen (p : Pkt) : Option Nat := p.tokenLenBytes.bind decodeVarint
 
 /-- `packet_len = decode_variable_length_int(packet_len_bytes).to_bytes(packet_len_len, "big")` -/
-def Pkt.packetLen (p : Pkt) : Option Bytes :=
+def _root_.TLX.Quic.Pkt.packetLen (p : Pkt) : Option Bytes :=
   p.lenBytes.bind fun b => (decodeVarint b).map (Bytes.ofNatBE b.length)
 
 /-- `associated_data` of QuicSession.decrypt_packet (quic_session.py 219-228); `none` = the expression raises
